@@ -60,7 +60,7 @@ Inductive mop :=
 | MReset                    (* _client_identity := [None, None]; _id_placeholder := None  (engine.py process_request) *)
 | MSetVersion (v : Z)       (* _set_protocol_version: _protocol_version, _attribute_policy                            *)
 | MSetAsync                 (* is_asynchronous := False                                                                *)
-| MSetIdent (c : Z)         (* _verify_credential: _client_identity := connection credential                           *)
+| MSetIdent (c : Z)         (* _verify_credential: _client_identity := connection credential (user AND groups)         *)
 | MOpenSession              (* _process_batch: _data_session := new session                                            *)
 | MGate (minv : Z)          (* _kmip_version_supported: reads _protocol_version                                        *)
 | MResolve (u : option Z)   (* identifier := payload value or _id_placeholder                                          *)
@@ -88,6 +88,18 @@ Definition fail (l : local) (c : Z) : local :=
 
 (* owner code of objects stored under an operation policy that allows every client every operation (ALLOW_ALL) *)
 Definition PUBLIC := -1.
+
+(* A credential is (user, groups); it is carried as ONE number 10*user + g with g = 0 (no group information: None),
+   1 (member of the group 'ops'), 2 (an EMPTY group list: the engine's loop over the groups grants nothing).
+   Objects of the operation policy 'grouped' (preset: owner only; group 'ops': everybody) owned by u have owner code -100-u. *)
+Definition user_of (c : Z) : Z := c / 10.
+Definition group_of (c : Z) : Z := c mod 10.
+Definition GROUPED_BASE := -100.
+Definition allowed (owner c : Z) : bool :=
+  if group_of c =? 2 then false
+  else if owner =? PUBLIC then true
+  else if owner <=? GROUPED_BASE then (group_of c =? 1) || (user_of c =? GROUPED_BASE - owner)
+  else (group_of c =? 0) && (user_of c =? owner).     (* default policy: no group sections, group information => refused *)
 
 Definition find_obj (u : Z) (st : list obj) : option obj := find (fun o => o_uid o =? u) st.
 
@@ -127,13 +139,13 @@ Definition interp (m : mop) (p : shared * local) : shared * local :=
       if active l then
         let l' := mkLocal (l_target l) (l_obj l) (l_fail l) (l_new l) (Some (s_ident sh)) (l_vseen l) (l_extra l) (l_stop l) (l_out l) in
         match l_obj l with
-        | Some o => (sh, if (o_owner o =? s_ident sh) || (o_owner o =? PUBLIC) then l' else fail l' 2)
+        | Some o => (sh, if allowed (o_owner o) (s_ident sh) then l' else fail l' 2)
         | None => (sh, fail l' 1)
         end
       else (sh, l)
   | MCreate =>
       if active l then
-        (set_store sh (s_store sh ++ [mkObj (s_next sh) (s_ident sh) 1]) (s_next sh + 1),
+        (set_store sh (s_store sh ++ [mkObj (s_next sh) (user_of (s_ident sh)) 1]) (s_next sh + 1),
          mkLocal (Some (s_next sh)) (l_obj l) (l_fail l) (s_next sh) (Some (s_ident sh)) (l_vseen l) (l_extra l) (l_stop l) (l_out l))
       else (sh, l)
   | MSetPh => if active l then (set_ph sh (Some (l_new l)), l) else (sh, l)
